@@ -613,7 +613,41 @@ def classify_process(case, name, after):
     return None
 
 
+def _case_key(c):
+    return tuple(c.get(k) for k in ("topo", "cls", "moment", "mode", "delay"))
+
+
 def check_processes(ctx, res, cases, origin, parallel=16):
+    """Run the cases (16 at a time: up to ~50 processes, some of them spinning).  The oracles are wall-clock bounds, so an
+    alarm of the parallel batch is confirmed by running that case again with one neighbour at most before it is reported:
+    a worker that really outlives its initiator does so again, a bound missed because the machine was busy does not."""
+    first = common.Result()
+    _check_processes(ctx, first, cases, origin, parallel)
+    alarms = [v for v in first.violations + first.mismatches if v.get("finding") is None]
+    if alarms and origin != "replay" and len(cases) > 2:
+        again_cases = []
+        for v in alarms:
+            c = {k: v["case"][k] for k in ("topo", "cls", "moment", "mode", "delay")}
+            if c not in again_cases:
+                again_cases.append(c)
+        again_cases = again_cases[:8]
+        rerun = {_case_key(c) for c in again_cases}
+        again = common.Result()
+        _check_processes(ctx, again, again_cases, origin + "-confirm", parallel=2)
+        bad_again = {_case_key(v["case"]) for v in again.violations + again.mismatches}
+
+        def keep(v):
+            k = _case_key(v["case"])
+            return v.get("finding") is not None or k not in rerun or k in bad_again
+        dropped = sum(1 for v in first.violations + first.mismatches if not keep(v))
+        first.violations = [v for v in first.violations if keep(v)]
+        first.mismatches = [v for v in first.mismatches if keep(v)]
+        first.stat("process_alarms_of_the_parallel_batch_not_confirmed_alone", dropped)
+        first.evaluations += again.evaluations
+    common.merge_results(res, first)
+
+
+def _check_processes(ctx, res, cases, origin, parallel=16):
     become_subreaper()
     scratch = common.scratch_dir("c11")
     try:
